@@ -38,6 +38,9 @@ func runC03(w *World, r *Report) {
 		}
 		c03Failed(o, r)
 	}
+	r.Rule("C03/WIRING", "Atomic, CleanupOnFail, KeepHistory and the wait options are never fed from a differently named option; upgrade --install carries Atomic over", 3)
+	checkWiring(w, r, "C03/WIRING", map[string]bool{"Atomic": true, "CleanupOnFail": true, "KeepHistory": true, "WaitForJobs": true, "WaitStrategy": true, "Force": true, "Recreate": true, "Timeout": true})
+	checkCarried(w, r, "C03/WIRING", []string{"Atomic"})
 	c03ErrSwallowed(w, r)
 	c03OldStaysAndCleanup(w, r, ef)
 	c03Atomic(w, r, ef)
